@@ -690,6 +690,17 @@ func (m *mstate) admits(cs spec.V) (admit, ok bool) {
 		}
 		return m.null != nullNo, true
 	}
+	if cs.St == spec.Known && cs.T.K == spec.KSet && !cs.WhollyKnown() {
+		// a set that holds unknown members: it stores len(Elems) members, but
+		// they may turn out to be equal to one another, so its final length is
+		// anywhere from 1 to len(Elems). It is admitted (possibly) whenever
+		// that interval meets the stated length bounds; nothing is asserted
+		// otherwise.
+		if m.mode == modeUnknown && m.null != nullYes && len(cs.Elems) >= m.minLen && 1 <= m.maxLen {
+			return true, true
+		}
+		return false, false
+	}
 	switch m.mode {
 	case modeKnownNull:
 		return false, true
